@@ -412,7 +412,10 @@ pub fn sroa(
 fn is_processable_aggregate(context: &Context, ty: Type) -> bool {
     fn check_sub_types(context: &Context, ty: Type) -> bool {
         match ty.get_content(context) {
-            crate::TypeContent::Unit => true,
+            // The scalars of a split aggregate are identified by their offsets. A zero-sized
+            // member has the same offset as the member that follows it, so an aggregate
+            // with a unit member cannot be split.
+            crate::TypeContent::Unit => false,
             crate::TypeContent::Bool => true,
             crate::TypeContent::Uint(width) => *width <= 64,
             crate::TypeContent::B256 => false,
